@@ -271,3 +271,13 @@ def _getd(ip, args, kw):
 def _tag(ip, args, kw):
     """tag_(x, 'Tag'): the same term, with the static tag that selects attribute / method handlers (no logical content)."""
     return ZV(as_v(args[0]), args[1].value)
+
+
+@spec("items_")
+def _items(ip, args, kw):
+    return ZV(L.dict_items(as_v(args[0])), "Seq[seq]")
+
+
+@spec("concat_")
+def _concat_spec(ip, args, kw):
+    return ZV(L.seq_concat(as_v(args[0]), as_v(args[1])), "seq")
